@@ -55,7 +55,7 @@ def sym_send(inp, part):
     other = None
     if dest == 2 and cmd == 1 and inp.bool("other_parked"):
         # an earlier command for the same child with another value type is already held
-        other = Message(n, c, 1, 0, 77, "earlier")
+        other = Message(n, c, 1, 0, t + 1, "earlier")  # another value type of the same child
         run(w.gw.send(other))
         if w.tr.writes:
             raise Violation("harness:park-wrote", "send to a sleeping node wrote immediately")
@@ -100,13 +100,13 @@ def sym_send(inp, part):
     if hit != 1:
         raise Violation("held-but-not-released", "send(%r) was held; the destination's next wake wrote %r" % (expect, writes))
     if other is not None:
-        oline = M.line(n, c, 1, 0, 77, "earlier")
+        oline = M.line(n, c, 1, 0, t + 1, "earlier")
         ohit = 0
         for wr in writes:
             if wr == oline:
                 ohit += 1
         if ohit != 1:
-            raise Violation("earlier-held-command-discarded", "a command held earlier for the same child (type 77) was written %d times at the wake: %r" % (ohit, writes))
+            raise Violation("earlier-held-command-discarded", "a command held earlier for the same child (other value type) was written %d times at the wake: %r" % (ohit, writes))
     return ["held-then-written", cmd]
 
 
